@@ -407,3 +407,56 @@ def construct_header(props, body_size):
     import pamqp.header
     return pamqp.header.ContentHeader(
         0, body_size, pamqp.commands.Basic.Properties(**props))
+
+
+# ---------------------------------------------------------------------------
+# Non-initial states: operations that fail part-way.  Checks call disturb()
+# between cases so that accepted inputs are also explored right after a
+# refused encode / a failed decode (retained scratch state would show).
+
+_BAD_FRAMES = [b'\x01\x00\x01\x00\x00\x00\x05\x00\x32\x00\x0a\x00\xce',
+               b'\x02\x00\x01\x00\x00\x00\x0f\x00\x3c\x00\x00' + b'\x00' * 8 +
+               b'\x80\x00\x05\xce',
+               b'\x01\x00\x01\x00\x00\x00\x0c\x00\x32\x00\x0a\x00\x00\x01q'
+               b'\x00\x00\x00\xce']
+
+
+DISTURBED = False     # set by a check right after disturb(); see case_mark
+
+
+def case_mark(case):
+    """Record in a replayable case whether it ran right after disturb()."""
+    global DISTURBED
+    if DISTURBED:
+        case['after_disturb'] = True
+        DISTURBED = False
+    return case
+
+
+def replay_prepare(case):
+    if case.get('after_disturb'):
+        disturb()
+
+
+def disturb():
+    """Run a fixed set of failing operations, ignoring their exceptions."""
+    import pamqp.commands as c
+    import pamqp.frame as f
+    import pamqp.header as h
+    attempts = (
+        lambda: f.marshal(c.Connection.Tune(10, 2**32, 5), 1),
+        lambda: f.marshal(c.Queue.Bind(queue='q', exchange='e',
+                                       arguments={'k': object()}), 1),
+        lambda: f.marshal(c.Basic.Deliver('tag', 2**70), 1),
+        lambda: f.marshal(h.ContentHeader(0, 1, c.Basic.Properties(
+            content_type='x', priority=999)), 1),
+        lambda: c.Exchange.Declare(exchange='bad*name'),
+        lambda: f.unmarshal(_BAD_FRAMES[0]),
+        lambda: f.unmarshal(_BAD_FRAMES[1]),
+        lambda: f.unmarshal(_BAD_FRAMES[2]),
+    )
+    for attempt in attempts:
+        try:
+            attempt()
+        except Exception:  # noqa
+            pass
